@@ -560,6 +560,10 @@ func (x *Exec) debugCheckPC(where string) {
 
 var DebugPC = false
 
+// NoMergeGlobal / NoModelCacheGlobal switch off if-conversion and the model cache (self-checks of the engine:
+// verdicts must not depend on either).
+var NoMergeGlobal, NoModelCacheGlobal bool
+
 func (x *Exec) concretizeTerm(t *smt.Term) uint64 {
 	c := x.C
 	x.debugCheckPC("concretize-entry")
@@ -764,6 +768,8 @@ func (p *Program) RunPath(fn *ssa.Function, prefix []Decision, c *smt.Ctx, s *sm
 		}
 		x.prefix = only
 	}
+	x.NoMerge = NoMergeGlobal
+	x.NoModelCache = NoModelCacheGlobal
 	if x.MaxSteps == 0 {
 		x.MaxSteps = 2_000_000
 	}
